@@ -88,9 +88,10 @@ class ExceptionsEmitter:
         if self.overall_project_root:
             core_path = Path(core_dir).resolve()
             project_root = Path(self.overall_project_root).resolve()
-            # Check if there are other client directories at the same level
-            parent_dir = core_path.parent
-            return parent_dir == project_root or parent_dir.parent == project_root
+            # Any core package below the project root may be shared by several clients, however deeply it is
+            # nested (it used to be recognised only one or two levels below the root, so a core such as
+            # "shared.rt.core" bypassed the registry and each generation dropped the other clients' aliases)
+            return project_root in core_path.parents
         return False
 
     def _update_registry(self, registry_path: str, client_name: str, status_codes: list[int]) -> list[int]:
